@@ -14,9 +14,9 @@ LEVEL_TEXT = ('Unbounded Lean theorems: (a) ALL SIZES of the hand-modelled class
               'Toric2DCode L>=2, Planar2DCode and RotatedPlanar2DCode L>=1, Toric3DCode L>=2, Planar3DCode and '
               'RotatedPlanar3DCode L>=1, XCubeCode L>=2, Color666PlanarCode L>=1, Color488Code and Color666ToricCode LxL, '
               'L>=1 (qubit lists derived from the stabilizers; periodic identification proved canonical), RhombicPlanarCode '
-              'Lx,Ly>=2 Lz>=1, RhombicToricCode all L_i even >=2 -- all with the full valid_code incl. rank; HollowPlanar3DCode '
-              'L>=1 (wf, commutation, pairing, operator-level rank family of n-1 independent generators), RotatedToric3DCode '
-              'Lx,Ly>=2 not both odd (wf + commutation + pairing incl. defect lines; rank by instances), more as they are '
+              'Lx,Ly>=2 Lz>=1, RhombicToricCode all L_i even >=2, HollowPlanar3DCode L>=1 (with or without a cavity), '
+              'RotatedToric3DCode Lx,Ly>=2 not both odd, Lz>=1 (k=2 even x even, k=1 with a defect line; explicit family of '
+              'n-k independent generators for both parities) -- all with the full valid_code incl. rank; more as they are '
               'merged): the assembled matrices '
               'exist and satisfy ValidCodeL n k (commutation, logical commutation, pairing table, GF(2) rank n-k) for every '
               'lattice size, with closed forms for n, k, stabilizers and get_deformation; (b) the executable validity checker '
